@@ -707,7 +707,33 @@ Definition host_sig (h : nat) : option (nat * bool * nat) :=
   | _ => None
   end.
 
-Definition log (st : store) (vs : list value) : store := set_trace st (vs :: st_trace st).
+(* the host function logs what it receives at the time of the call: containers are copied into
+   fresh arrays / maps that nothing else refers to, so that later stores through the originals do not
+   alter the log *)
+Fixpoint freeze (fuel : nat) (st : store) (v : value) : store * value :=
+  match fuel with
+  | 0 => (st, v)
+  | S f =>
+    match v with
+    | VSlice l off n _ =>
+        let '(st1, fr) := fold_left (fun (p : store * list value) x => let '(s', y) := freeze f (fst p) x in (s', snd p ++ [y]))
+                                    (slice_elems st l off n) (st, []) in
+        let '(st2, l') := alloc_array st1 fr in (st2, VSlice l' 0 (length fr) (length fr))
+    | VMap m =>
+        match nth_error (st_maps st) m with
+        | Some es =>
+            let '(st1, fr) := fold_left (fun (p : store * list (value * value)) kx =>
+                                           let '(s', y) := freeze f (fst p) (snd kx) in (s', snd p ++ [(fst kx, y)])) es (st, []) in
+            let '(st2, m') := alloc_map st1 fr in (st2, VMap m')
+        | None => (st, v)
+        end
+    | _ => (st, v)
+    end
+  end.
+
+Definition log (st : store) (vs : list value) : store :=
+  let '(st', vs') := fold_left (fun (p : store * list value) x => let '(s', y) := freeze 12 (fst p) x in (s', snd p ++ [y])) vs (st, []) in
+  set_trace st' (vs' :: st_trace st').
 
 (* f.Call(args) for a host function; panics inside are captured by the call-site recover *)
 Definition host_call (h : nat) (args : list value) (s : rstate) : outcome :=
